@@ -572,7 +572,7 @@ func init() {
 		Level: "exploration",
 		Rule: "metamorphic monitor (parsed vs dump->load): for each accepted program Dump must succeed, an independent decoder must recover exactly the program's parts and an independent encoder must reproduce the bytes; LoadProg through 6 reader behaviours (whole, 1 byte per read, halves, random chunks, zero-byte reads, data with EOF) and every 2-partition of small dumps must give a program with identical disassembly, output, blocks, binding, warnings and runtime error text; re-dump must be byte-identical. " +
 			"Workload: size-directed programs (string constants, identifiers and program names of 0..67825 bytes across every varint class and the 4096-byte buffers, code and source offsets beyond 67823, 2400+ constants), float constants of random bit patterns, and generated programs of all profiles. " +
-			"distinct = hash of dump; non-trivial = program accepted and dumped Also: string sizes 3..131 each with every 2-partition; LoadProg is always given another name than Parse (the dumped name must win); Prog.Load into a Prog that was disassembled, executed and traced before (results, re-dump, trace text and the text of an error kept from before the reload must be unaffected); sources with 65538 / 70000 lines and beyond 16 MiB; Dump into a pipe and /dev/null. String constants that are not text: every single byte value as a one-byte constant, and runs of continuation, lead, cut-character, surrogate and 0xFF bytes placed around offsets 4096 and 8192 of a long constant. Programs whose and/or jump operands lie at and around the 16-bit limit (distances 65524..65535, taken and not taken).",
+			"distinct = hash of dump; non-trivial = program accepted and dumped Also: string sizes 3..131 each with every 2-partition; LoadProg is always given another name than Parse (the dumped name must win); Prog.Load into a Prog that was disassembled, executed and traced before (results, re-dump, trace text and the text of an error kept from before the reload must be unaffected); sources with 65538 / 70000 lines and beyond 16 MiB; Dump into a pipe and /dev/null. String constants that are not text: every single byte value as a one-byte constant, and runs of continuation, lead, cut-character, surrogate and 0xFF bytes placed around offsets 4096 and 8192 of a long constant. Programs whose and/or jump operands lie at and around the 16-bit limit (distances 65524..65535, taken and not taken). All compiler boundary programs of C10 (scopes ending with 1..1025 live variables, binds at every constant-number class) and the run-time limit programs of checks/limits.go round-trip too.",
 		Assumptions:   []string{"Execute of the parsed program is the reference for the loaded one", "in the thorough tier the same workload also runs under the race detector build"},
 		MinNontrivial: 300,
 		RaceAlso:      func(tier string) bool { return tier == "thorough" },
@@ -813,7 +813,7 @@ func init() {
 		Level: "fault_enumeration",
 		Rule: "crash monitor over every interruption point: for each dump, LoadProg of every proper prefix (cut 0..len-1; for dumps > 4000 bytes: first/last 600 bytes, 4096-byte buffer edges and a sample), through a whole-slice reader and a one-byte reader, must return a non-nil error and must not panic; prefixes are also produced the way a crash does (Dump into a writer that fails after k bytes). " +
 			"Plus all 65536 magic values and all 65536 (major, minor) pairs in front of a valid body: accepted iff magic = FC 6C, major = 1, minor <= 1; every fifth cut is also left behind as a real file and loaded from the *os.File with an empty name; a valid dump behind 100 kinds of leading junk (shebang lines, comments, blanks, NULs, byte order marks, other headers) must be refused. " +
-			"distinct = hash(dump, cut); non-trivial = the cut lies inside a dump that loads when complete Load modes: whole slice, one byte per read, whole with disassembly and statistics on, and a bytes.Reader from which a preamble was consumed. Also dumps with more than 65536 line feeds / code bytes and with 5-byte offsets (source beyond 16 MiB).",
+			"distinct = hash(dump, cut); non-trivial = the cut lies inside a dump that loads when complete Load modes: whole slice, one byte per read, whole with disassembly and statistics on, and a bytes.Reader from which a preamble was consumed. Also dumps with more than 65536 line feeds / code bytes and with 5-byte offsets (source beyond 16 MiB). Cut dumps also hold string constants, block names and program names of 30..1200 hostile bytes (continuation bytes, 0xFF, cut characters, NULs, format verbs, quotes).",
 		Assumptions:   []string{"the complete dump loads (checked first; C09 covers it)"},
 		MinNontrivial: 1000,
 		Run: func(c *core.Ctx) {
